@@ -234,6 +234,43 @@ theorem gossip_delivered_everything_converges (hist : List GStep) (j : Nat)
   · rw [← refines_swarm ns encE {} pre]
     exact delivered_was_written (run ns encE {} pre) (netInv_run ns encE {} (by intro p hp; simp at hp) pre) k i e hk
 
+/-- a node that syncs the document (topic active) hands every applied local write to gossip: it is in the
+network afterwards, ready to be delivered -/
+theorem synced_write_is_broadcast (g : G) (i : Nat) (e : Entry) (n : Nat)
+    (hput : (put (g.sw.st i) e).2 = .inserted n)
+    (hs : (g.live i).syncing ns = true) (ht : (g.live i).topics.contains ns = true) :
+    (i, e) ∈ (step ns encE g (.localWrite i e)).net := by
+  simp only [step]
+  cases hp : put (g.sw.st i) e with
+  | mk s' out =>
+    rw [hp] at hput
+    simp only at hput
+    subst hput
+    simp only
+    rw [Live.local_insert_broadcast]
+    have ht' : ns ∈ (g.live i).topics := by simpa using ht
+    simp [hs, ht']
+
+theorem syncing_after_add (l : Live.LState) (t : List Bytes) :
+    ({ (if l.syncing ns then l else { l with docs := l.docs ++ [{ ns := ns }] }) with topics := t } : Live.LState).syncing ns = true := by
+  by_cases h : l.syncing ns = true
+  · simp only [h, if_true]; exact h
+  · have h' : l.syncing ns = false := by simpa using h
+    simp only [h', Bool.false_eq_true, if_false]
+    simp only [Live.LState.syncing, Live.LState.doc?, List.find?_append] at h' ⊢
+    cases hf : l.docs.find? (·.ns == ns) with
+    | some d => simp [hf] at h'
+    | none => simp
+
+/-- … and after `start_sync` a node is in that situation -/
+theorem startSync_then_broadcasts (g : G) (i : Nat) :
+    ((step ns encE g (.startSync i)).live i).topics.contains ns = true ∧
+    ((step ns encE g (.startSync i)).live i).syncing ns = true := by
+  simp only [step, updL, if_true]
+  refine ⟨Live.startSync_enables_broadcast _ ns [], ?_⟩
+  simp only [Live.step, Bool.not_true, Bool.and_false, Bool.false_eq_true, if_false, List.foldl_nil]
+  exact syncing_after_add ns _ _
+
 /-! non-vacuity -/
 example : GossipDelivered [1] (fun _ => [7])
     [.startSync 0, .localWrite 0 Swarm.exE, .gossipDeliver 1 0 true true true false] 1 Swarm.exE :=
